@@ -338,9 +338,13 @@ def h_nucleic_state(eng, ff, kind):
     menu = [(), ("O2'",), ("C2'",), ("O4'",), ("N1",), ("O2'", "C2'")] if kind == "rna" else [(), ("C2'",), ("O4'",), ("N1",)]
     omit = menu[eng.choice("atoms_missing_from_input", len(menu))]
     seq = [bases[2], mid, bases[1]]
+    if eng.flag("chain_is_a_single_nucleotide"):
+        # a free nucleoside is 5'- and 3'-terminal at once; no shipped force field has parameters for that state, and the
+        # one-sided terminal rows (which assume a neighbour on the other side) must not be borrowed for it
+        seq, omit = [mid], ()
     lines, serial = [], 1
     for i, name in enumerate(seq):
-        rl = fixtures.residue_lines(name, "A", i + 1, serial, (9.0 * i, 0.0, 0.0), omit=omit if i == 1 else ())
+        rl = fixtures.residue_lines(name, "A", i + 1, serial, (9.0 * i, 0.0, 0.0), omit=omit if (i == 1 and len(seq) == 3) else ())
         serial += len(rl)
         lines += rl
     lines.append("TER")
@@ -352,11 +356,11 @@ def h_nucleic_state(eng, ff, kind):
         eng.check(True, "loud-failure-tolerated", note=f"{type(e).__name__}: {str(e)[:80]}")
         return
     missed = [(a.residue.name, a.name) for a in r["missed_residues"]]
-    eng.check(not missed, "every-atom-parameterised", note=f"{seq} with {omit or 'nothing'} missing from the input: unassigned {missed[:5]}")
+    eng.check(not missed or len(seq) == 1, "every-atom-parameterised", note=f"{seq} with {omit or 'nothing'} missing from the input: unassigned {missed[:5]}")
     for i, x in enumerate(bm.residues):
         ribo = x.has_atom("O2'")
         want = ("R" if ribo else "D") + x.name[-1]
-        want += "5" if i == 0 else "3" if i == len(seq) - 1 else ""
+        want += ("5" if i == 0 else "") + ("3" if i == len(seq) - 1 else "")
         eng.check(str(x.ffname) == want, "nucleotide-keyed-by-final-state", note=f"{seq} with {omit or 'nothing'} missing from the input: residue {i + 1} ({'with' if ribo else 'without'} O2') is parameterised as {x.ffname}, final state is {want}")
 
 
